@@ -377,6 +377,31 @@ def same_obs(a, b):
     lie outside the model's strict reads"""
     if a.startswith("val ?") or b.startswith("err:decode"):
         return True
+    if a.startswith("ok ") and b.startswith("ok "):
+        # a save that had to decode first (re-typed, still lazy table): the
+        # set / dict iteration order inside that decode is the
+        # implementation's own; the two byte strings must decode to
+        # set-equal values under the saved type name
+        pa, pb = a.split(" "), b.split(" ")
+        if len(pa) == 3 and len(pb) == 3 and pa[1] == pb[1] and _GT:
+            try:
+                name = "" if pa[1] == "-" else bytes.fromhex(pa[1]).decode()
+                t = tree_of(name)
+                lw = _LW()
+                lw.gtirb, lw.index = _GT[0], {}
+                vals = []
+                for h in (pa[2], pb[2]):
+                    raw = b"" if h == "-" else bytes.fromhex(h)
+                    if len(raw) != len(b"" if pa[2] == "-" else
+                                       bytes.fromhex(pa[2])):
+                        return False
+                    v = cc.impl_decode(_GT[0], name, raw, None)
+                    vals.append(cc.nan_normalise(cc.canon(
+                        cc.to_tokens(lw, t, v))))
+                return vals[0] == vals[1]
+            except Exception:   # noqa
+                return False
+        return False
     if a.startswith("val ") and b.startswith("val "):
         try:
             return (cc.nan_normalise(cc.canon(a.split(" ")[1:]))
@@ -384,6 +409,9 @@ def same_obs(a, b):
         except Exception:   # noqa
             return False
     return False
+
+
+_GT = []
 
 
 def ad_loaded_type(load_tn, type_changed, ad):
@@ -470,6 +498,8 @@ def node_free(t):
 
 
 def run(ctx):
+    import gtirb
+    _GT[:] = [gtirb]
     world = cc.World(ctx.rng)
     # C14 tables avoid node references in values (the loaded IR is another
     # IR): restrict leaves
